@@ -96,7 +96,10 @@ class Ctx:
 
         if isinstance(accepted, str):
             accepted = [accepted]
-        ok, why = compare(derived_expr, accepted)
+        from . import exprdiff
+
+        with exprdiff.scope(exprdiff.SCOPE if exprdiff.SCOPE is not None else self.scope_names(construct)):
+            ok, why = compare(derived_expr, accepted)
         exp = " | ".join(accepted)
         if ok is True:
             return self.ob(rule, construct, u(derived_expr), exp, True, detail)
@@ -117,6 +120,41 @@ class Ctx:
                 return self.ob(rule, construct, u(derived_expr), exp, None, f"the specified name(s) {sorted(set(stale))} no longer occur in the package (renamed): spelling rule not applicable")
             return self.ob(rule, construct, u(derived_expr), exp, False, (detail + " -- " if detail else "") + why)
         return self.ob(rule, construct, u(derived_expr), exp, None, why)
+
+    def scope_names(self, construct: str):
+        """Bare names of the member named by `construct` ("file::Class.member ...") and of the private helpers it
+        reaches; None when the construct does not name a member."""
+        from .stmts import scope_names
+
+        try:
+            short, rest = construct.split("::", 1)
+            head = rest.split(" ")[0].split("[")[0]
+            if "." not in head:  # a module-level function
+                import ast as _ast
+
+                fn = self.repo.module(short).functions.get(head)
+                if fn is None:
+                    return None
+                from .exprdiff import ScopeSet
+
+                return ScopeSet.of([fn])
+            cname, member = head.split(".")[0], head.split(".")[1]
+            ci = self.repo.cls(short, cname)
+            if self.repo.lookup(ci, member) is None:
+                return None
+            return scope_names(self.repo, ci, member)
+        except Exception:
+            return None
+
+    def scope(self, short: str, cname: str, *members: str):
+        """Context manager: atoms compared inside come from these members (see exprdiff.scope)."""
+        from . import exprdiff
+        from .stmts import scope_names
+
+        from .stmts import reachable_functions
+
+        ci = self.repo.cls(short, cname)
+        return exprdiff.scope(exprdiff.ScopeSet.of([fn for m in members for fn in reachable_functions(self.repo, ci, m, 3)]))
 
     def _aliased(self, construct: str, got, spec) -> bool:
         from .symex import Expander
